@@ -4,7 +4,7 @@
    input is a list of complete lines ([llen l] bytes each, '\n' included) plus [tail] bytes
    without '\n'; the reader follows ANY schedule [sch] of read sizes. *)
 From Coq Require Import ZArith List Bool.
-From RM Require Import Base.Word C08.Model C11.Model C09.Model C09.Grammar C09.Driver C09.Proofs C09.ProofsBytes C09.ProofsFinish C09.ProofsFinal C09.ProofsTrace.
+From RM Require Import Base.Word C08.Model C11.Model C09.Model C09.Grammar C09.Driver C09.Proofs C09.ProofsBytes C09.ProofsFinish C09.ProofsFinal C09.ProofsTrace C09.Circular C09.ProofsCircular C09.ProofsLines.
 From RM Require C09.Pins.
 Import ListNotations.
 Open Scope Z_scope.
@@ -244,3 +244,101 @@ Example c09_nonvacuous_trace :
   let t := run_trace [ex_module; [(97, 200000)]; ex_file] 0 [] in
   (tr_grows t, tr_recovered t, 0 <? tr_discards t, 0 <? tr_shifts t, 0 <? tr_full_reads t) = (4, 1, true, true, true).
 Proof. vm_compute. reflexivity. Qed.
+
+(* ------------------------------------------------------------------ round 5: the buffer WITH its bytes.
+   C09/Circular.v: circular::Buffer 0.3.0 as memory + capacity/position/end (with_capacity zero-fills, data() / space()
+   are slices of memory, shift is a memmove to the front, grow is resize(n, 0), the reader overwrites the start of space()).
+   For ANY sequence of operations the code can perform (a read() puts at most space() bytes, consume takes at most
+   available_data()): the indices are those of the index model of C09/Model.v, memory.len() == capacity and
+   position <= end <= capacity persist, and data() is a FIFO queue of bytes — a write appends, consume(n) drops the first n,
+   shift and grow change nothing.  This was the trusted "FIFO contract". *)
+Theorem c09_buffer_refines_fifo :
+  forall (ops : list bop) (b : bbuf),
+    (zlength (m_mem b) = m_cap b /\ 0 <= m_pos b /\ m_pos b <= m_end b /\ m_end b <= m_cap b) ->
+    ops_ok (idx b) ops = true ->
+    let b' := fold_left bapply ops b in
+    (zlength (m_mem b') = m_cap b' /\ 0 <= m_pos b' /\ m_pos b' <= m_end b' /\ m_end b' <= m_cap b') /\
+    idx b' = fold_left capply ops (idx b) /\
+    bdata b' = fold_left qapply ops (bdata b).
+Proof. exact fifo_refinement. Qed.
+Print Assumptions c09_buffer_refines_fifo.
+
+(* The parse loop run on real bytes ([bstep]: the loop of Model.v, statement by statement, with the buffer above, a reader
+   that copies the next bytes of the input [inp] into space(), and a callback that records the slices it is given).
+   For every input (any lines, any unterminated rest, ANY bytes [inp] of that total length), every schedule and every
+   number of iterations: the byte-level run takes the branches of the index model (its state projects onto it, [idx]), never
+   reaches a slice panic, and
+        callback bytes ++ data() ++ bytes not yet read = input,
+   so the callback has been given exactly the first total_consumed bytes of the input, in order, and data() is exactly the
+   window input[total_consumed .. total_consumed + available_data()] that Model.v assumed. *)
+Theorem c09_window_is_input :
+  forall (L : Type) (llen : L -> Z) (PS : Type) (init_ps : PS)
+         (recog : PS -> L -> PS + Z) (bump : PS -> PS) (lineno : PS -> Z),
+    (forall l, 1 <= llen l) ->
+    forall (lines : list L) (tail : Z) (sch : list Z) (inp : list Z) (p : positive),
+    zlength inp = input_len L llen lines tail ->
+    let x0 := binit L PS (init_st L llen PS init_ps lines tail sch) inp in
+    let good (x : bst L PS) (s : st L PS) :=
+      x_s x = s /\
+      idx (x_b x) = buf s /\
+      x_cb x ++ bdata (x_b x) ++ x_in x = inp /\
+      x_cb x = zfirstn (total s) inp /\
+      bdata (x_b x) = zslice inp (total s) (total s + avail (buf s)) in
+    match iter_pos L llen PS recog bump lineno p (init_st L llen PS init_ps lines tail sch) with
+    | Next s => exists x, biter L llen PS recog bump lineno (Pos.to_nat p) x0 = BNext x /\ good x s
+    | Done r s => exists x, biter L llen PS recog bump lineno (Pos.to_nat p) x0 = BDone r x /\ good x s
+    | StPanic _ => False
+    end.
+Proof. exact window_is_input_thm. Qed.
+Print Assumptions c09_window_is_input.
+
+(* What Model.v says about the CONTENT of data() — [rest]/[off] ("the unconsumed lines minus the first off bytes"),
+   [first_nl] ("the first newline is at llen - off - 1 if that is inside the window") and [pm] ("parse_more walks over the
+   complete lines that fit") — is true of the real bytes: when every line [l] is its content (no '\n') followed by '\n' and
+   the rest has no '\n', then in every state of the byte-level run
+     - data() ++ unread bytes = the unconsumed lines and the rest, minus [off] bytes;
+     - `data.iter().position(|b| b == '\n')` on the bytes of data() is Model.first_nl;
+     - outside recovery, `&data[..=rposition('\n')]` (what parse_more keeps) is the concatenation of the lines that fit. *)
+Theorem c09_data_is_the_lines :
+  forall (L : Type) (llen : L -> Z) (PS : Type) (init_ps : PS)
+         (recog : PS -> L -> PS + Z) (bump : PS -> PS) (lineno : PS -> Z) (bytes_of : L -> list Z),
+    (forall l, exists body, bytes_of l = body ++ [10] /\ Forall (fun c => c <> 10) body /\ zlength (bytes_of l) = llen l) ->
+    forall (lines : list L) (tl : list Z) (sch : list Z) (p : positive),
+    Forall (fun c => c <> 10) tl ->
+    let inp := flat_map bytes_of lines ++ tl in
+    let s0 := init_st L llen PS init_ps lines (zlength tl) sch in
+    let x0 := binit L PS s0 inp in
+    let good (x : bst L PS) (s : st L PS) :=
+      x_s x = s /\
+      bdata (x_b x) ++ x_in x = zskipn (off s) (flat_map bytes_of (rest s) ++ tl) /\
+      position_nl (bdata (x_b x)) 0 = first_nl L llen PS s /\
+      (off s = 0 -> trim_nl (bdata (x_b x)) = flat_map bytes_of (fit llen (avail (buf s)) (rest s))) in
+    match iter_pos L llen PS recog bump lineno p s0 with
+    | Next s => exists x, biter L llen PS recog bump lineno (Pos.to_nat p) x0 = BNext x /\ good x s
+    | Done r s => exists x, biter L llen PS recog bump lineno (Pos.to_nat p) x0 = BDone r x /\ good x s
+    | StPanic _ => False
+    end.
+Proof. exact data_is_the_lines_thm. Qed.
+Print Assumptions c09_data_is_the_lines.
+
+(* non-vacuity: a capacity-8 buffer, a write, a consume past the half (shift = memmove: the stale bytes stay behind), a write
+   that makes fill() shift, a grow.  The operations are admissible, data() is the queue, and the memory is what memmove /
+   resize leave. *)
+Example c09_nonvacuous_buffer :
+  let ops := [OWrite [1;2;3;4;5;6]; OConsume 5; OWrite [7;8;9]; OConsume 1; OGrow 12; OWrite [10;11]] in
+  let b := fold_left bapply ops (with_capacity 8) in
+  ops_ok (idx (with_capacity 8)) ops = true /\
+  bdata b = [7;8;9;10;11] /\ m_mem b = [7;8;9;10;11;11;0;0;0;0;0;0] /\ idx b = mkbuf 0 5 12.
+Proof. vm_compute. repeat split. Qed.
+
+(* non-vacuity: three lines and an unterminated rest, read 3 bytes at a time: the byte-level run ends with
+   "unexpected EOF" after the callback has been given exactly the three lines. *)
+Example c09_nonvacuous_bytes_run :
+  let lines := [[77;79;68;10]; [70;10]; [10]] in
+  let inp := flat_map (fun l => l) lines ++ [120;121] in
+  let s0 := init_st (list Z) zlength (list Z) [] lines 2 [3;3;3;3] in
+  match biter (list Z) zlength (list Z) (fun p l => inl (p ++ l)) (fun p => p) (fun _ => 0) 6 (binit _ _ s0 inp) with
+  | BDone (RErr 4 _) x => x_cb x = [77;79;68;10;70;10;10] /\ bdata (x_b x) = [120;121] /\ ps (x_s x) = x_cb x
+  | _ => False
+  end.
+Proof. vm_compute. repeat split. Qed.
